@@ -68,7 +68,7 @@ fn hc(thorough: bool) -> HistCheck<'static> {
 
 pub fn run(ctx: &Ctx, col: &Collector) -> Meta {
     let h = hc(ctx.thorough);
-    run_hist(ctx, col, &h, ctx.n(8000, 120_000));
+    run_hist(ctx, col, &h, ctx.n(8000, 60_000));
     Meta {
         level: "exploration",
         rule: "random histories (proptest, vec of symbolic ops interpreted against the live model state) of add/delete/rename/disable attribute, add/delete dimension, update, key generation, refresh, encapsulation and round-trips on a random base structure; after every step the serialized structure / master key are compared with a name-level model (ids never reused, hierarchy order, rights), and the full user-key x encapsulation decapsulation matrix is compared with the model at checkpoints and at the end. Non-trivial = history with an add after a delete (or a rename, or a dimension re-added) followed by an encapsulation made after an edit while user keys existed, whose matrix contains both verdicts; distinct by the whole case".into(),
